@@ -79,9 +79,7 @@ func genC17Consts() (*coqFile, error) {
 		recv, name string
 	}
 	want := map[fn]bool{
-		{"", "NewLatitude"}: true, {"", "NewLatitudeDegrees"}: true, {"", "NewLongitudeDegrees"}: true,
-		{"Latitude", "Degrees"}: true, {"Latitude", "Invalid"}: true, {"Latitude", "String"}: true,
-		{"Longitude", "Degrees"}: true, {"Longitude", "Invalid"}: true, {"Longitude", "String"}: true,
+		// the functions of latlng.go are translated as a whole (gen_c17funcs.go, Gen/C17Funcs.v)
 		{"", "decodeDateTime"}: true, {"", "encodeTime"}: true,
 	}
 	var lines []string
